@@ -34,7 +34,10 @@ RULE = ("one case = one download of a real uploaded file (k/N/segment size incl.
         "plaintext/crypttext hash tree, block hashes, share hashes, UEB length, UEB), header field set to an edge value, truncation "
         "at a section boundary, swap between share numbers / files / encodings, a server rewriting its share between reads, or the "
         "consistent-forgery family (internally consistent shares of other content with the genuine or a forged UEB on m=1..N "
-        "servers, g<k genuine shares left, seeded delivery orders, two re-reads on the same node); "
+        "servers, g<k genuine shares left, seeded delivery orders, two re-reads on the same node), or the bad-guess family "
+        "(upload segment size smaller/equal/larger than the downloader's guess, ranged FIRST read on a fresh filenode at offsets "
+        "around every guessed and real segment boundary, with and without a corrupted share; thorough: a real 5 MiB file with "
+        "2 MiB segments against the unpatched 1 MiB guess); "
         "applied to 1, N-k+1 or all shares; distinct = distinct (file, mutation, targets, read range, seed); non-trivial = the "
         "mutation changed at least one stored byte. Function-level cases: k=1 file, one share kept, one mutation, whole-file read.")
 TRUSTED = ["harness/grid.py (in-process grid, seeded scheduler, fault hook)",
@@ -586,6 +589,167 @@ def run_k1(ctx, fidx, n_mut, seed):
                     "real downloader vs the Lean chain on the same share bytes", cases, impl, norm)
 
 
+# ----------------------------------------------------------------------------- segment-size guess wrong in either direction
+
+def run_gotseg(ctx):
+    """Segmentation._got_segment on arbitrary (wanted range, handed segment): slice written or WrongSegmentError"""
+    from allmydata.immutable.downloader.segmentation import Segmentation
+    from allmydata.immutable.downloader.common import WrongSegmentError
+    rng = ctx.rng
+
+    class Ev:
+        def update(self, *a):
+            pass
+
+    class Node:
+        _si_prefix = "x"
+
+    lines, impl, cases = [], [], []
+    for _ in range(ctx.budget(400, 6000)):
+        seglen = rng.choice([1, 2, 7, 16, 32, rng.randrange(1, 60)])
+        start = rng.choice([0, seglen, 2 * seglen, rng.randrange(0, 100)])
+        off = max(0, start + rng.choice([-seglen - 1, -seglen, -3, -1, 0, 1, seglen - 1, seglen, seglen + 1, rng.randrange(-40, 80)]))
+        size = rng.choice([1, 2, seglen, seglen + 5, 1000, rng.randrange(1, 50)])
+        seg = bytes((start + i) % 251 for i in range(seglen))
+        rec = Recorder()
+        sg = Segmentation.__new__(Segmentation)
+        sg._node = Node()
+        sg._offset, sg._size = off, size
+        sg._consumer = rec
+        sg._read_ev = Ev()
+        sg._lp = None
+        sg._hungry = False           # so that _maybe_fetch_next does nothing
+        sg._alive = True
+        sg._active_segnum = None
+        sg._cancel_segment_request = None
+        try:
+            sg._got_segment((start, seg, 0.0), 0)
+            got = b"".join(rec.chunks)
+            out = "%d %d" % (off - start, len(got))
+            want = bytes((off + i) % 251 for i in range(len(got)))
+            if got != want:
+                ctx.violation("_got_segment wrote bytes of the handed segment that are not file[offset:...]",
+                              {"kind": "gotseg", "off": off, "size": size, "start": start, "len": seglen},
+                              "wrong-bytes-on-badguess-gotseg")
+        except WrongSegmentError:
+            out = "wrong"
+        lines.append("gotseg %d %d %d %d" % (off, size, start, seglen))
+        impl.append(out)
+        cases.append({"kind": "gotseg", "off": off, "size": size, "start": start, "len": seglen})
+        ctx.case(("gotseg", off, size, start, seglen))
+        ctx.count("gotseg:" + ("wrong" if out == "wrong" else "slice"))
+    ctx.compare("Segmentation._got_segment: slice of the handed segment / WrongSegmentError", cases, impl, ctx.model(lines))
+
+
+BADGUESS_FILES = [  # (size, k, n, upload max_segment_size, downloader default_max_segment_size)
+    (700, 3, 5, 128, 40), (700, 3, 5, 128, 300), (700, 3, 5, 128, 129), (333, 1, 2, 40, 100), (333, 1, 2, 100, 40),
+    (1000, 4, 6, 250, 60), (1000, 4, 6, 60, 250), (500, 2, 3, 1000, 64), (500, 2, 3, 64, 1 << 20), (257, 1, 1, 64, 17)]
+
+
+def next_multiple(x, k):
+    return -(-x // k) * k
+
+
+def badguess_reads(rng, size, seg, guess, count):
+    """(offset, size) pairs around every guessed and real segment boundary"""
+    bounds = sorted({b for b in list(range(0, size + 1, seg)) + list(range(0, size + 1, guess)) if 0 < b < size})
+    out = []
+    for _ in range(count):
+        if bounds and rng.random() < 0.85:
+            off = rng.choice(bounds) + rng.choice([-1, 0, 0, 1, 2, seg // 2, guess // 2, -(guess // 2)])
+        else:
+            off = rng.randrange(1, size)
+        off = max(1, min(off, size - 1))
+        rsize = rng.choice([1, 2, 7, guess, seg, seg + 1, size, None, rng.randrange(1, size - off + 1)])
+        out.append((off, rsize))
+    return out
+
+
+def run_badguess_case(ctx, spec, reads, seed, corrupt_plan, big=False):
+    """first read on a fresh filenode, ranged, with the downloader's segment-size guess differing from the real one"""
+    import grid
+    import random
+    from allmydata.immutable import upload
+    from allmydata.immutable.downloader.node import DownloadNode
+    from allmydata import uri
+    size, k, n, maxseg, gmax = spec
+    if big:
+        r = random.Random("c02-big-%d" % size)
+        chunk = bytes(r.randrange(256) for _ in range(65521))
+        data = (chunk * (size // len(chunk) + 1))[:size]
+    else:
+        data = file_data(size, 9000 + maxseg)
+    seg = next_multiple(min(maxseg, size), k)
+    guess = next_multiple(min(size, gmax), k)
+    saved = DownloadNode.default_max_segment_size
+    with grid.Runtime(seed=seed, policy="random") as rt:
+        g = grid.Grid(grid.fresh_dir("c02bg"), rt, num_servers=n, k=k, happy=1, n=n, max_segment_size=maxseg)
+        try:
+            DownloadNode.default_max_segment_size = gmax
+            c = g.clients[0]
+            rt.steps = 0
+            res = rt.wait(c.upload(upload.Data(data, convergence=b"c02-badguess-cv!")), max_steps=20_000_000)
+            cap = res.get_uri()
+            si = uri.from_string(cap).get_storage_index()
+            files = sorted(g.share_files(si))
+            snap = {t: read_body(t[2]) for t in files}
+            for ri, (off, rsize) in enumerate(reads):
+                corrupt = corrupt_plan[ri % len(corrupt_plan)]
+                for t in files:
+                    if read_body(t[2]) != snap[t]:
+                        write_body(t[2], snap[t])
+                if corrupt is not None and not big:
+                    t = files[corrupt % len(files)]
+                    rg = regions(snap[t])
+                    p = rg["data"][0] + (off // max(k, 1)) % max(rg["data"][1], 1)
+                    b = snap[t]
+                    write_body(t[2], b[:p] + bytes([b[p] ^ 0xff]) + b[p + 1:])
+                gs, rs = off // guess, off // seg
+                rel = "lt" if gs < rs else "eq" if gs == rs else "gt" if gs < -(-size // seg) else "beyond"
+                case = {"kind": "badguess", "spec": list(spec), "off": off, "size": rsize, "seed": seed, "corrupt": corrupt,
+                        "big": big, "guess": guess, "segsize": seg, "mclass": "on-badguess-" + rel}
+                node = fresh_node(c, cap)
+                if big:
+                    global STEP_LIMIT
+                    old, STEP_LIMIT = STEP_LIMIT, 400000
+                    try:
+                        got, end = do_read(rt, grid, node, off, rsize)
+                    finally:
+                        STEP_LIMIT = old
+                else:
+                    got, end = do_read(rt, grid, node, off, rsize)
+                check_read(ctx, case, data, off, rsize, got, end)
+                if end.startswith("error") and corrupt is None:
+                    # an error is permitted by C02's statement; that an intact file stays readable is C03/C04's.
+                    # (seen on the unchanged tree when the guessed segnum lies beyond the real segment count: the
+                    # hash requests computed from the guessed tree fall past the end of the share, every share is
+                    # abandoned with DataUnavailable and the read ends in NotEnoughSharesError instead of being retried)
+                    ctx.count("badguess-intact-read-failed:%s:%s" % (rel, end[6:]))
+                ctx.case(("badguess", tuple(spec), off, rsize, corrupt))
+                ctx.count("badguess:guess-%s-real" % ("<" if guess < seg else "=" if guess == seg else ">"))
+                ctx.count("badguess:segnum-" + rel)
+        finally:
+            DownloadNode.default_max_segment_size = saved
+            g.close()
+
+
+def run_badguess(ctx):
+    rng = ctx.rng
+    per = ctx.budget(22, 120)
+    for spec in BADGUESS_FILES:
+        size, k, n, maxseg, gmax = spec
+        seg = next_multiple(min(maxseg, size), k)
+        guess = next_multiple(min(size, gmax), k)
+        reads = badguess_reads(rng, size, seg, guess, per)
+        run_badguess_case(ctx, spec, reads, rng.randrange(1 << 30), [None, None, 0, None, 1])
+    if ctx.tier == "thorough":
+        # one real file with segments larger than the downloader's real default guess (1 MiB): nothing is patched
+        spec = (5 * 1024 * 1024 + 12345, 1, 2, 2 * 1024 * 1024, 1024 * 1024)
+        reads = [(1572864, 1000), (1048593, 300000), (2 * 1024 * 1024 - 1, 3), (3 * 1024 * 1024 + 5, 70000), (1, 10)]
+        run_badguess_case(ctx, spec, reads, rng.randrange(1 << 30), [None], big=True)
+
+
+
 def run_offsets(ctx):
     """Share._satisfy_offsets accept/reject on crafted tables vs the model"""
     from allmydata.immutable.downloader.share import Share, LayoutInvalid
@@ -636,12 +800,18 @@ def run(ctx):
             run_k1(ctx, cs["file"], cs["mi"] + 1, cs["seed"])
         elif cs.get("kind") == "forgery":
             run_campaign(ctx, cs["file"], 0, cs["seed"], cs["fi"] + 1, flines, fimpl, fcases)
+        elif cs.get("kind") == "badguess":
+            run_badguess_case(ctx, tuple(cs["spec"]), [(cs["off"], cs["size"])], cs["seed"], [cs.get("corrupt")], cs.get("big", False))
+        elif cs.get("kind") == "gotseg":
+            run_gotseg(ctx)
         elif "file" in cs:
             run_campaign(ctx, cs["file"], cs.get("mi", 0) + 1, cs["seed"])
         return
     run_offsets(ctx)
+    run_gotseg(ctx)
+    run_badguess(ctx)
     nfiles = ctx.budget(12, 60)
-    per = ctx.budget(70, 220)
+    per = ctx.budget(60, 220)
     for i in range(nfiles):
         run_campaign(ctx, i, per, ctx.rng.randrange(1 << 30), ctx.budget(40, 150), flines, fimpl, fcases)
     outs = ctx.model(flines)
